@@ -12,14 +12,15 @@
    body-length panic found by this check is repaired in /repo, commit 94ffaa1),
    the byte-level round trip of a whole serialized assertion (C20_assertion_roundtrip), and that bufio-style Peek does not
    depend on the reader's chunking (C20_peek_chunking_independent).
-   Not proved (monitored on the implementation by the differential run): the stream version of the round trip (Decoder.Decode
-   over the concatenation of k encodings returns exactly those k assertions, then EOF); that the result of the stream decoder does not
+   and the stream round trip: Decoder.Decode called repeatedly on what one Encoder wrote for any list of assertions returns
+   exactly those assertions, then EOF (C20_stream_roundtrip, by induction on the list through the doubling loop of readUntil).
+   Not proved (monitored on the implementation by the differential run): that the result of the stream decoder does not
    depend on how the underlying reader splits the bytes (the model abstracts bufio.Reader.Peek as delivering the requested
    bytes; the driver reads every boundary-placed stream through readers handing out 1, 2, 3, 7, B-1, B, B+1 or random
    numbers of bytes per Read, also with the last bytes delivered together with EOF), the per-type checks of assemble, and absence of hangs in the real decoder. *)
 From Coq Require Import List NArith ZArith Bool String.
 Import ListNotations.
-Require Import V.lib.Bytes V.models.AssertCodec V.proofs.AssertCodecProofs.
+Require Import V.lib.Bytes V.models.AssertCodec V.proofs.AssertCodecProofs V.proofs.AssertStreamProofs.
 Open Scope string_scope.
 Open Scope list_scope.
 Open Scope N_scope.
@@ -65,6 +66,32 @@ Theorem C20_reencode_identity : forall h body sig,
   exists p, decode_parts (encode_assertion h body sig) = Ok p /\ encode (p_content p) (p_sig p) = encode_assertion h body sig.
 Proof. exact reencode_identity. Qed.
 Print Assumptions C20_reencode_identity.
+
+(* STREAM round trip.  Any list of assertions (normalised headers whose body-length is the length of the body, arbitrary
+   body, signature text s without blank line, not ending in a newline, stored as s + newline) handed to ONE Encoder - each
+   one complete or without the final newline of its signature (WriteEncoded / WriteContentSignature of a trimmed
+   signature) - and then read back by calling Decoder.Decode repeatedly gives exactly those assertions (headers, body,
+   signature, signed content), in order, and then EOF.  Side conditions: each component fits the limits in the sense of
+   the doubling loop (lim_ok; for the production limits: header text and signature text <= 128 KiB - 2, body <= 2 MiB,
+   C20_limits_default), initial buffer >= 1.  Holds for every incoming state of the sticky EOF flag. *)
+Theorem C20_stream_roundtrip : forall lim (l : list (bool * item)) ef,
+  1 <= l_buf lim -> Forall (fun x => wf_item (snd x)) l -> Forall (fun x => lim_ok lim (snd x)) l ->
+  stream_all lim (mkD (encode_stream (enc_items l)) ef) (repeat true (S (List.length l)))
+  = map (fun x => SOk (i_parts (snd x))) l ++ [SEof].
+Proof. exact stream_roundtrip. Qed.
+Print Assumptions C20_stream_roundtrip.
+
+Theorem C20_limits_default : forall it,
+  lenN (i_head it) + 2 <= 131072 -> lenN (i_body it) <= 2097152 -> lenN (i_s it) + 2 <= 131072 -> lim_ok default_limits it.
+Proof. exact lim_ok_default. Qed.
+Print Assumptions C20_limits_default.
+
+(* readUntil returns the text up to and including the first blank line whenever the doubling loop can reach it *)
+Theorem C20_read_until_finds : forall fuel size maxSize d e,
+  delim_end (d_rem d) = Some e -> ru_ok fuel size maxSize e = true ->
+  exists ef, read_until fuel size maxSize d = (RFound (takeN e (d_rem d)), mkD (dropN e (d_rem d)) ef).
+Proof. exact read_until_finds. Qed.
+Print Assumptions C20_read_until_finds.
 
 (* bufio.Reader.Peek(n) over a reader that hands out its data in arbitrary pieces returns the first n of the bytes still
    to come, or all of them with EOF if there are fewer - whatever the pieces: this is the [peek] the stream decoder model
@@ -148,6 +175,16 @@ Example C20_ex_assertion :
   decode_parts (encode_assertion C20_ex_tree (bs "body" ++ [10; 10] ++ bs "more" ++ [10]) (bs "AcLBXAQ=" ++ [10]))
   = Ok (mkParts C20_ex_tree (bs "body" ++ [10; 10] ++ bs "more" ++ [10]) (bs "AcLBXAQ=" ++ [10])
                 (content_of (join_lines (format_headers C20_ex_tree)) (bs "body" ++ [10; 10] ++ bs "more" ++ [10]))).
+Proof. vm_compute. reflexivity. Qed.
+Definition C20_ex_item (body : bytes) (len : bytes) : item :=
+  mkItem [(bs "type", Str [bs "test-only"]); (bs "body-length", Str [len]); (bs "note", Str [bs "a"; bs "b"])] body (bs "AcLB" ++ [10] ++ bs "XAQ=").
+Example C20_ex_wf : wf_item (C20_ex_item (bs "body" ++ [10; 10] ++ bs "x") (bs "7")) /\ lim_ok default_limits (C20_ex_item (bs "body" ++ [10; 10] ++ bs "x") (bs "7")).
+Proof. split; [unfold wf_item|unfold lim_ok]; repeat split; try (vm_compute; reflexivity); try (vm_compute; discriminate); vm_compute; discriminate. Qed.
+Example C20_ex_stream :
+  let a := C20_ex_item (bs "body" ++ [10; 10] ++ bs "x") (bs "7") in
+  let b := C20_ex_item [] (bs "0") in
+  stream_all default_limits (mkD (encode_stream (enc_items [(true, a); (false, b); (true, a)])) false) (repeat true 4)
+  = [SOk (i_parts a); SOk (i_parts b); SOk (i_parts a); SEof].
 Proof. vm_compute. reflexivity. Qed.
 Example C20_ex_dropped : parse_header_lines (format_headers dropped_tree) = Ok [(bs "foo", Lst [Str [bs "a"]])].
 Proof. vm_compute. reflexivity. Qed.
